@@ -19,7 +19,7 @@ def optNat (s : String) : Option Nat := if s == "-" then none else s.toNat?
 /-- the `h*` lines of a case grouped by step index (built once per case) -/
 abbrev Buckets := Array (Array (Array String))
 
-def hKeys : List String := ["hst", "hn", "he", "himp", "hop", "hret", "hlist", "hdst", "hroute", "hwrite"]
+def hKeys : List String := ["hst", "hn", "he", "himp", "hop", "hret", "hlist", "hdst", "hroute", "hwrite", "hends", "hends2", "hchg"]
 
 def mkBuckets (c : Case) : Buckets := Id.run do
   let mut b : Buckets := #[]
@@ -80,6 +80,7 @@ def applyOp (s : Imp) (op : Array String) : Option (Imp × Option (Option Nat ×
   | "nop" => some (s, none)
   | "resync" => some (s, none)
   | "write" => some (s, none)
+  | "upd" => some (s, none)
   | "split" => do
     let x ← num? (op[4]?.getD "")
     let y ← num? (op[5]?.getD "")
@@ -298,6 +299,30 @@ def checkOps (c0 : Case) : CaseResult := Id.run do
               diverge := diverge <|> some s!"step {i}: listJunctionsAndConnectors differs: model {js} {cs.map onStr} libavoid {jsC} {csC}"
           | none => diverge := diverge <|> some s!"step {i}: the model's listNode runs out of fuel / meets a dangling pointer"
         | _, _ => pure ()
+        -- `updateConnEnds` of the real code vs. the model's, on libavoid's state and the real ends before
+        if kind == "upd" then
+          let root := nat! ((ops.head?.getD #[])[2]?.getD "0")
+          let parseEnd (x : String) : CEnd :=
+            if x.startsWith "J" then .junction (nat! (x.drop 1).toString) else if x == "E" then .empty else .other
+          let parseEnds (key : String) : EndsMap :=
+            ((stepLines c key i).head?.map (fun l => (l.extract 1 l.size).toList.filterMap (fun x =>
+              match x.splitOn ":" with
+              | [a, b, d] => some (nat! a, parseEnd b, parseEnd d)
+              | _ => none))).getD []
+          let before := parseEnds "hends"
+          let afterC := parseEnds "hends2"
+          let chgC : List Nat := ((stepLines c "hchg" i).head?.map (fun l => (l.extract 1 l.size).toList.map nat!)).getD []
+          stats := bumpStats stats "ops.upd" 1
+          match updateConnEnds after.s.t before root with
+          | none => diverge := diverge <|> some s!"step {i} (upd): the model's updateConnEnds stops (null connector / dangling pointer) but libavoid returned"
+          | some u =>
+            if u.changed != chgC then
+              diverge := diverge <|> some s!"step {i} (upd): changed connectors: model {u.changed} libavoid {chgC}"
+            if !u.changed.isEmpty then stats := bumpStats stats "ops.upd.changed-some" 1
+            let show' (m : EndsMap) : List String := (m.mergeSort (fun a b => a.1 ≤ b.1)).map (fun p => s!"{p.1}:{repr p.2.1}:{repr p.2.2}")
+            match firstDiff (show' u.ends) (show' afterC) with
+            | some d => diverge := diverge <|> some s!"step {i} (upd): connector ends: {d}"
+            | none => pure ()
         -- the write-back of routes (`writeEdgesToConns`, both passes) vs. the model's `writeRoutes`
         if kind == "write" then
           let root := nat! ((ops.head?.getD #[])[2]?.getD "0")
